@@ -2,5 +2,18 @@
 
 package webrtc
 
+import (
+	"context"
+
+	"github.com/pion/datachannel"
+)
+
 // VerifIsOfferer exports the role rule for verification harnesses.
 func VerifIsOfferer(a, b string) bool { return isOfferer(a, b) }
+
+// VerifExecuteLink runs the QUIC link of the session with peerIDStr over the given data channel, exactly as the
+// session does once the WebRTC negotiation has produced a data channel. Returns whether the local peer is the offerer.
+func (w *WebRTC) VerifExecuteLink(ctx context.Context, peerIDStr string, dc datachannel.ReadWriteCloser) (bool, error) {
+	_, sess := w.newSessionTracker(peerIDStr)
+	return sess.offerer, sess.executeLink(ctx, dc)
+}
